@@ -1,3 +1,539 @@
-/- C19: property theorems (stub, not yet built) -/
+/-
+C19 — NodePool weight and price ordering are honoured.
+
+Property theorems only.  Helper lemmas: `Karp/Proofs/WeightPriceLemmas.lean`, `Karp/Proofs/FirstSuccessLemmas.lean`,
+`Karp/Proofs/PriceSpecLemmas.lean`.
+Model: `Karp/Model/WeightOrder.lean` (OrderByWeight, sort.Slice as a relation),
+       `Karp/Model/FirstSuccess.lean` (parallelizeUntil + the publication protocol of addToNewNodeClaim),
+       `Karp/Model/PriceOrder.lean` (OrderByPrice, Truncate, Cheapest, ToNodeClaim truncation).
+Spec:  `Karp/Spec/WeightPrice.lean`.
+-/
+import Karp.Proofs.WeightPriceLemmas
+import Karp.Proofs.FirstSuccessLemmas
+import Karp.Proofs.PriceSpecLemmas
+import Karp.Proofs.WeightSpecLemmas
+import Karp.Proofs.ReservedFallbackLemmas
+import Karp.Spec.WeightPrice
+import Karp.Spec.PoolPass
+
 namespace Karp.C19
+open List Karp.WeightOrder Karp.PriceOrder Karp.FirstSuccess Karp.ReservedFallback Karp.Spec.WeightPrice
+
+/-! ## Fact expectations over the regenerated source facts -/
+
+/-- truncation to `MaxInstanceTypes` keeps at least one option -/
+theorem fact_maxInstanceTypes_pos : 0 < Karp.Gen.C19Facts.maxInstanceTypes := by decide
+
+/-- `Provisioner.NewScheduler` orders the NodePools by weight before it hands them to `scheduler.NewScheduler`
+    (the template index order IS the weight order) -/
+theorem fact_order_before_templates :
+    Karp.Gen.C19Facts.provisionerNewSchedulerCalls = ["OrderByWeight", "NewScheduler"] := by decide
+
+/-- `ToNodeClaim` slices the price-ordered options (`lo.Slice(OrderByPrice(..), 0, MaxInstanceTypes)`), once -/
+theorem fact_toNodeClaim_slices_ordered :
+    Karp.Gen.C19Facts.toNodeClaimCalls = ["Slice", "OrderByPrice"] := by decide
+
+/-- `Truncate` slices the price-ordered options, once -/
+theorem fact_truncate_slices_ordered :
+    Karp.Gen.C19Facts.truncateCalls = ["Slice", "OrderByPrice"] := by decide
+
+/-- `addToNewNodeClaim` evaluates the templates through `parallelizeUntil` (once) and publishes under the mutex
+    (two publication sites: reserved-offering error and success) -/
+theorem fact_addToNewNodeClaim_protocol :
+    Karp.Gen.C19Facts.addToNewNodeClaimCalls = ["parallelizeUntil", "Lock", "Lock"] := by decide
+
+/-! ## Weight order -/
+
+/-- **C19_order_by_weight_perm** — `OrderByWeight` loses and invents no NodePool. -/
+theorem C19_order_by_weight_perm (nps : List Pool) : orderByWeight nps ~ nps := sortBy_perm before nps
+
+/-- **C19_order_by_weight_sorted** — in the result every earlier pool has a larger weight than every later
+    one, or the same weight and a name that is not earlier in the alphabet. -/
+theorem C19_order_by_weight_sorted (nps : List Pool) :
+    (orderByWeight nps).Pairwise (fun a b =>
+      b.weight < a.weight ∨ (a.weight = b.weight ∧ lexLt a.name b.name = false)) := by
+  have h := sortBy_sorted before_strictWeak nps
+  unfold Sorted at h
+  refine h.imp ?_
+  intro a b hab
+  unfold before at hab
+  by_cases hw : b.weight = a.weight
+  · simp only [hw, if_true] at hab
+    right; exact ⟨hw.symm, hab⟩
+  · simp only [hw, if_false, decide_eq_false_iff_not] at hab
+    left; omega
+
+/-- **C19_order_by_weight_unique** — `sort.Slice` is unstable, but whatever sorted permutation it returns is
+    THE ordering: the comparator is a strict total order on (weight, name).  (This is what lets the
+    correspondence compare the real output with the model by equality.) -/
+theorem C19_order_by_weight_unique (input out : List Pool) (h : allowedSort before input out = true) :
+    out = orderByWeight input := by
+  simp only [allowedSort, Bool.and_eq_true] at h
+  obtain ⟨hp, hs⟩ := h
+  have hperm : input ~ out := isPerm_iff.mp hp
+  have hs' : Sorted before out := (sortedBy_iff _ _).mp hs
+  have hm := sortBy_sorted before_strictWeak input
+  apply Perm.eq_of_pairwise (le := fun a b => before b a = false) ?_ hs' hm
+  · exact hperm.symm.trans (sortBy_perm before input).symm
+  · intro a b _ _ h1 h2
+    exact before_antisymm a b h2 h1
+
+/-- **C19_order_by_weight_meets_spec** — every output the model allows satisfies the independent
+    weight-order specification. -/
+theorem C19_order_by_weight_meets_spec (input out : List Pool) (h : allowedSort before input out = true) :
+    weightOrderSpec input out = true := by
+  simp only [allowedSort, Bool.and_eq_true] at h
+  obtain ⟨hp, hs⟩ := h
+  have hperm : input ~ out := isPerm_iff.mp hp
+  simp only [weightOrderSpec, sameMultiset, Bool.and_eq_true, all_eq_true, beq_iff_eq]
+  exact ⟨⟨fun p _ => hperm.count_eq p, fun p _ => hperm.count_eq p⟩,
+    adjacentOk_of_sorted out ((sortedBy_iff _ _).mp hs)⟩
+
+/-! ## First feasible template, for every schedule and every worker count -/
+
+/-- **C19_first_success** (all schedules) — for every outcome vector, every configured degree of parallelism
+    (any integer; non-positive values mean 1, as in `NewScheduler`) and every interleaving of the workers'
+    steps: once all workers have returned, the published claim is the one of the sequential walk — the least
+    template index that does not plainly fail, taken if it succeeded, nothing if it asked to wait for reserved
+    capacity. -/
+theorem C19_first_success (outs : List Outcome) (n : Int) (sched : List Nat)
+    (hdone : allDone (run outs (init (effectiveWorkers n) outs) sched) = true) :
+    result (run outs (init (effectiveWorkers n) outs) sched) = sequentialResult outs := by
+  have hinv := inv_run outs sched _ (inv_init (effectiveWorkers n) outs)
+  have hlen := run_workers_length outs sched (init (effectiveWorkers n) outs)
+  generalize run outs (init (effectiveWorkers n) outs) sched = s at hdone hinv hlen
+  obtain ⟨_, hBusy, hIdx, hDone, hHeld⟩ := hinv
+  simp only [allDone, all_eq_true, beq_iff_eq] at hdone
+  unfold result sequentialResult
+  cases hfd : firstDecisive outs with
+  | none =>
+    have hall := firstDecisive_none outs hfd
+    cases hidx : s.idx with
+    | none => rw [hidx] at hIdx; simpa using hIdx
+    | some j => rw [hidx] at hIdx; exact absurd (hall j) hIdx.2.1
+  | some mo =>
+    obtain ⟨m, o⟩ := mo
+    obtain ⟨hm, ho⟩ := firstDecisive_some outs m o hfd
+    -- there is a worker, and it has returned
+    have hpos : 0 < s.workers.length := by
+      rw [hlen]
+      have h1 : 0 < effectiveWorkers n := by unfold effectiveWorkers; split <;> omega
+      have h2 := hm.1
+      simp [init]; omega
+    have hw0 : s.workers[0]? = some W.done := by
+      rw [getElem?_eq_getElem hpos]
+      exact congrArg some (hdone _ (getElem_mem hpos))
+    have hlt := hDone m hm ⟨0, hw0⟩
+    have hidx : s.idx = some m := by
+      rcases hHeld m hm hlt with ⟨w, hw⟩ | h
+      · have := hdone _ (mem_of_getElem? hw)
+        cases this
+      · exact h
+    rw [hidx] at hIdx
+    rw [hIdx.2.2]
+    unfold claimFor
+    rw [ho]
+    cases o with
+    | fail => exact absurd ho hm.2.1
+    | ok => simp
+    | reserved => simp
+
+/-- **C19_first_success_meets_spec** — the sequential result is what the specification asks for: the chosen
+    template is feasible and every earlier (higher-priority) template plainly failed; nothing is chosen only
+    if no template qualifies. -/
+theorem C19_first_success_meets_spec (outs : List Outcome) : chosenOk outs (sequentialResult outs) = true := by
+  unfold sequentialResult
+  cases hfd : firstDecisive outs with
+  | none =>
+    have hall := firstDecisive_none outs hfd
+    simp only [chosenOk, all_eq_true, mem_range, Bool.not_eq_eq_eq_not, Bool.not_true]
+    intro i _
+    cases hq : qualifies outs i with
+    | false => rfl
+    | true => have := ((qualifies_iff outs i).mp hq).1; rw [hall i] at this; cases this
+  | some mo =>
+    obtain ⟨m, o⟩ := mo
+    obtain ⟨hm, ho⟩ := firstDecisive_some outs m o hfd
+    cases o with
+    | fail => exact absurd ho hm.2.1
+    | ok => exact (qualifies_iff outs m).mpr ⟨ho, hm.2.2⟩
+    | reserved =>
+      simp only [chosenOk, all_eq_true, mem_range, Bool.not_eq_eq_eq_not, Bool.not_true]
+      intro i _
+      cases hq : qualifies outs i with
+      | false => rfl
+      | true =>
+        obtain ⟨h1, h2⟩ := (qualifies_iff outs i).mp hq
+        have hle := isFirst_le hm (by rw [h1]; decide : outs.getD i .fail ≠ .fail)
+        rcases Nat.lt_or_eq_of_le hle with hlt | heq
+        · have := h2 m hlt; rw [ho] at this; cases this
+        · subst heq; rw [ho] at h1; cases h1
+
+/-- **C19_schedule_terminates** — no interleaving can run forever or deadlock: every step of a worker that has
+    not returned strictly decreases a measure bounded by `2·pieces + 3·workers`, and as long as `wg.Wait()`
+    has not returned some worker can step. -/
+theorem C19_schedule_progress (outs : List Outcome) (s : St) (w : Nat)
+    (hw : ∃ x, s.workers[w]? = some x ∧ x ≠ W.done) :
+    progressMeasure outs (step outs s w) < progressMeasure outs s := by
+  obtain ⟨x, hx, hne⟩ := hw
+  have hb := fun v => count_set W.isBusy s.workers w x v hx
+  have hd := fun v => count_set W.notDone s.workers w x v hx
+  unfold step
+  rw [hx]
+  cases x with
+  | done => exact absurd rfl hne
+  | idle =>
+    simp only
+    split
+    · have h1 := hb (.busy s.next); have h2 := hd (.busy s.next)
+      simp only [progressMeasure]
+      simp [W.isBusy, W.notDone] at h1 h2 ⊢
+      omega
+    · have h1 := hb .done; have h2 := hd .done
+      simp only [progressMeasure]
+      simp [W.isBusy, W.notDone] at h1 h2 ⊢
+      omega
+  | busy i =>
+    simp only
+    unfold finish
+    split
+    · have h1 := hb .idle; have h2 := hd .idle
+      simp only [progressMeasure]
+      simp [W.isBusy, W.notDone] at h1 h2 ⊢
+      omega
+    · have h1 := hb .done; have h2 := hd .done
+      split
+      all_goals
+        simp only [progressMeasure]
+        simp [W.isBusy, W.notDone] at h1 h2 ⊢
+        omega
+    · have h1 := hb .done; have h2 := hd .done
+      split
+      all_goals
+        simp only [progressMeasure]
+        simp [W.isBusy, W.notDone] at h1 h2 ⊢
+        omega
+
+theorem C19_schedule_no_deadlock (s : St) (h : allDone s = false) :
+    ∃ (w : Nat) (x : W), s.workers[w]? = some x ∧ x ≠ W.done := by
+  simp only [allDone, all_eq_false, beq_iff_eq] at h
+  obtain ⟨x, hx, hne⟩ := h
+  obtain ⟨w, hw, rfl⟩ := mem_iff_getElem.mp hx
+  exact ⟨w, _, getElem?_eq_getElem hw, hne⟩
+
+/-- **C19_weight_priority** (first sentence of the property; all pool sets, all feasibility assignments, every
+    degree of parallelism, every interleaving) — order the pools as `OrderByWeight` may (any sorted
+    permutation), evaluate one template per pool concurrently, wait for the workers.  If the pod opens a node
+    from pool `p`, then `p` is feasible and EVERY pool that ranks before `p` — in particular every pool of
+    strictly larger weight — is infeasible.  If it opens none, either every pool is infeasible or the
+    best-ranked pool that is not infeasible asked to wait for reserved capacity. -/
+theorem C19_weight_priority (pools ord : List Pool) (f : Pool → Outcome) (n : Int) (sched : List Nat)
+    (hsort : allowedSort before pools ord = true)
+    (hdone : allDone (run (ord.map f) (init (effectiveWorkers n) (ord.map f)) sched) = true) :
+    match result (run (ord.map f) (init (effectiveWorkers n) (ord.map f)) sched) with
+    | some i => ∃ p, ord[i]? = some p ∧ f p = .ok ∧
+        ∀ q ∈ pools, (before q p = true ∨ p.weight < q.weight) → f q = .fail
+    | none => (∀ q ∈ pools, f q = .fail) ∨
+        ∃ p ∈ pools, f p = .reserved ∧ ∀ q ∈ pools, (before q p = true ∨ p.weight < q.weight) → f q = .fail := by
+  rw [C19_first_success _ n sched hdone]
+  simp only [allowedSort, Bool.and_eq_true] at hsort
+  obtain ⟨hp, hs⟩ := hsort
+  have hperm : pools ~ ord := isPerm_iff.mp hp
+  have hsorted : Sorted before ord := (sortedBy_iff _ _).mp hs
+  -- a pool that ranks before `ord[m]` sits at a smaller index
+  have hbefore : ∀ (m : Nat) (p : Pool), ord[m]? = some p → ∀ q ∈ pools,
+      (before q p = true ∨ p.weight < q.weight) → ∃ j, j < m ∧ ord[j]? = some q := by
+    intro m p hmp q hq hrank
+    have hrank' : before q p = true := by
+      rcases hrank with h | h
+      · exact h
+      · unfold before
+        have : ¬ q.weight = p.weight := by omega
+        simp [this, h]
+    obtain ⟨j, hj, hjq⟩ := mem_iff_getElem.mp (hperm.mem_iff.mp hq)
+    obtain ⟨hm, hmp'⟩ := List.getElem?_eq_some_iff.mp hmp
+    refine ⟨j, ?_, by rw [getElem?_eq_getElem hj, hjq]⟩
+    rcases Nat.lt_trichotomy j m with h | h | h
+    · exact h
+    · subst h
+      rw [hjq] at hmp'; subst hmp'
+      rw [(before_strictWeak.asymm _ _ hrank')] at hrank'; cases hrank'
+    · have := (pairwise_iff_getElem.mp hsorted) m j hm hj h
+      rw [hmp', hjq, hrank'] at this; cases this
+  have hget : ∀ (j : Nat) (q : Pool), ord[j]? = some q → (ord.map f).getD j .fail = f q := by
+    intro j q hjq
+    simp [getD, getElem?_map, hjq]
+  unfold sequentialResult
+  cases hfd : firstDecisive (ord.map f) with
+  | none =>
+    left
+    intro q hq
+    obtain ⟨j, hj, hjq⟩ := mem_iff_getElem.mp (hperm.mem_iff.mp hq)
+    have := firstDecisive_none _ hfd j
+    rwa [hget j q (by rw [getElem?_eq_getElem hj, hjq])] at this
+  | some mo =>
+    obtain ⟨m, o⟩ := mo
+    obtain ⟨hm, ho⟩ := firstDecisive_some _ m o hfd
+    have hmlt : m < ord.length := by simpa using hm.1
+    have hmp : ord[m]? = some ord[m] := getElem?_eq_getElem hmlt
+    have hfail : ∀ q ∈ pools, (before q ord[m] = true ∨ ord[m].weight < q.weight) → f q = .fail := by
+      intro q hq hrank
+      obtain ⟨j, hjm, hjq⟩ := hbefore m _ hmp q hq hrank
+      have := hm.2.2 j hjm
+      rwa [hget j q hjq] at this
+    rw [hget m _ hmp] at ho
+    cases o with
+    | fail => exact absurd (by rw [hget m _ hmp]; exact ho) hm.2.1
+    | ok => exact ⟨ord[m], hmp, ho, hfail⟩
+    | reserved =>
+      right
+      exact ⟨ord[m], hperm.mem_iff.mpr (getElem_mem hmlt), ho, hfail⟩
+
+/-! ## Whole passes with capacity reservations -/
+
+/-- **C19_reserved_pass_priority** (all pool sets, all pod batches; `Model/ReservedFallback.pass` = the pass in which
+    every pod needs its own node, pools may own a reservation that earlier claims of the pass use up, and pools
+    may have a cpu limit that earlier claims of the pass fill) —
+    a pod is placed in pool `q` only if `q` can host it and EVERY pool ranking before `q`, in particular every
+    higher-weight pool, either cannot host it or has reached its limit by the claims of this pass; a pod is deferred
+    for reserved capacity only if the best-ranked pool that can host it and is not full owns a reservation (never
+    sent to a lower-weight pool instead, never blocked by a lower-ranked pool's reservation); it is reported
+    unschedulable only if every pool cannot host it or is full. -/
+theorem C19_reserved_pass_priority (pools : List RPool) (pods : List RPod) (pn : String) (v : Verdict)
+    (h : (pn, v) ∈ pass pools pods) :
+    ∃ p ∈ pods, p.name = pn ∧ Justified pools pods p v := by
+  unfold pass at h
+  have hperm : templates pools ~ pools := sortBy_perm poolBefore pools
+  have hsorted : Sorted poolBefore (templates pools) := sortBy_sorted poolBefore_strictWeak pools
+  obtain ⟨_, hspec⟩ := runPods_spec (templates pools) (queueOrder pods) (initState (templates pools))
+    (by simp [initState])
+  obtain ⟨p, hp, hname, hex⟩ := hspec pn v h
+  refine ⟨p, mem_queueOrder hp, hname, ?_⟩
+  -- the explanation's "full" refers to the final counters, i.e. `finalUsed`
+  have hfull : ∀ (j : Nat) (r : RPool), (templates pools)[j]? = some r →
+      fullAt (usedAt (runPods (templates pools) (initState (templates pools)) (queueOrder pods)).2 j) r = true →
+      FullAtEnd pools pods r := by
+    intro j r hj hf
+    refine ⟨j, hj, ?_⟩
+    have : (finalUsed pools pods).getD j 0
+        = usedAt (runPods (templates pools) (initState (templates pools)) (queueOrder pods)).2 j := by
+      unfold finalUsed usedAt
+      simp only [List.getD, List.getElem?_map]
+      cases (runPods (templates pools) (initState (templates pools)) (queueOrder pods)).2[j]? <;> rfl
+    rw [this]; exact hf
+  -- a pool ranking before `templates[i]` sits at a smaller index
+  have hrank : ∀ (i : Nat) (q : RPool), (templates pools)[i]? = some q → ∀ r ∈ pools,
+      (poolBefore r q = true ∨ q.weight < r.weight) → ∃ j, j < i ∧ (templates pools)[j]? = some r := by
+    intro i q hi r hr hrank
+    have hlt : poolBefore r q = true := hrank.elim id poolBefore_of_weight
+    obtain ⟨j, hj, hjr⟩ := mem_iff_getElem.mp (hperm.mem_iff.mpr hr)
+    have hj' : (templates pools)[j]? = some r := by rw [getElem?_eq_getElem hj, hjr]
+    exact ⟨j, index_lt_of_lt poolBefore_strictWeak hsorted hi hj' hlt, hj'⟩
+  cases v with
+  | placed qn =>
+    obtain ⟨i, q, hi, hq, hcan, hb⟩ := hex
+    refine ⟨q, hperm.mem_iff.mp (mem_of_getElem? hi), hq, hcan, ?_⟩
+    intro r hr hrk
+    obtain ⟨j, hji, hj⟩ := hrank i q hi r hr hrk
+    exact (hb j r hji hj).imp id (hfull j r hj)
+  | deferred =>
+    obtain ⟨i, q, hi, hcan, hcap, hb⟩ := hex
+    refine ⟨q, hperm.mem_iff.mp (mem_of_getElem? hi), hcan, hcap, ?_⟩
+    intro r hr hrk
+    obtain ⟨j, hji, hj⟩ := hrank i q hi r hr hrk
+    exact (hb j r hji hj).imp id (hfull j r hj)
+  | unschedulable =>
+    intro r hr
+    obtain ⟨j, hj, hjr⟩ := mem_iff_getElem.mp (hperm.mem_iff.mpr hr)
+    have hj' : (templates pools)[j]? = some r := by rw [getElem?_eq_getElem hj, hjr]
+    exact (hex j r hj').imp id (hfull j r hj')
+
+/-! ## Price order and truncation -/
+
+/-- **C19_cheapest_kept** (second sentence of the property) — whatever sorted permutation the unstable sort
+    returns, after truncation to `n` every kept type's cheapest compatible available offering is no dearer
+    than every dropped type's: truncation never drops a cheaper type in favour of a dearer one; and nothing
+    is lost or invented. -/
+theorem C19_cheapest_kept (reqs : List Req) (n : Int) (its sorted : List IType)
+    (h : allowedSort (cheaper reqs) its sorted = true) :
+    (∀ k ∈ sliceTo n sorted, ∀ d ∈ sorted.drop n.toNat, priceLt (effPrice reqs d) (effPrice reqs k) = false) ∧
+    (sliceTo n sorted ++ sorted.drop n.toNat) ~ its ∧
+    (sliceTo n sorted).length = min n.toNat its.length := by
+  simp only [allowedSort, Bool.and_eq_true] at h
+  obtain ⟨hp, hs⟩ := h
+  have hperm : its ~ sorted := isPerm_iff.mp hp
+  have hsorted : Sorted (cheaper reqs) sorted := (sortedBy_iff _ _).mp hs
+  refine ⟨?_, ?_, ?_⟩
+  · intro k hk d hd
+    unfold Sorted at hsorted
+    have := Pairwise.rel_of_mem_take_of_mem_drop (R := fun a b => cheaper reqs b a = false) hsorted hk hd
+    exact this
+  · simp only [sliceTo, take_append_drop]; exact hperm.symm
+  · simp [sliceTo, hperm.length_eq]
+
+/-- the canonical model output is one of the allowed ones (the relation is never empty) -/
+theorem C19_order_by_price_allowed (reqs : List Req) (its : List IType) :
+    allowedSort (cheaper reqs) its (orderByPrice reqs its) = true := by
+  simp only [allowedSort, Bool.and_eq_true]
+  exact ⟨isPerm_iff.mpr (sortBy_perm _ _).symm,
+    (sortedBy_iff _ _).mpr (sortBy_sorted (cheaper_strictWeak reqs) its)⟩
+
+/-- **C19_less_is_strictly_cheaper** — the `less` closure of `OrderByPrice` (loop over the offerings with a
+    running minimum starting at `MaxFloat64`) decides exactly the specification's relation "some usable
+    offering of `d` undercuts every usable offering of `k`". -/
+theorem C19_less_is_strictly_cheaper (reqs : List Req) (d k : IType) :
+    cheaper reqs d k = strictlyCheaper reqs d k := cheaper_eq_strictlyCheaper reqs d k
+
+/-- **C19_cheapest_agrees** — `Offerings.Available().Compatible(reqs).Cheapest()` yields the price
+    `OrderByPrice` ranks by. -/
+theorem C19_cheapest_agrees (reqs : List Req) (t : IType) :
+    cheapestAvailableCompatible reqs t.offerings = effPrice reqs t := by
+  unfold cheapestAvailableCompatible effPrice
+  exact (minPriceLoop_eq_cheapestLoop reqs t.offerings none).symm
+
+/-- **C19_truncate_meets_spec** (refinement to the independent specification; all catalogs with distinct type
+    names, all requirements, all `n`, every allowed sort result) — the names kept by
+    `OrderByPrice` + `lo.Slice(…, 0, n)` satisfy `cheapestKeptSpec`. -/
+theorem C19_truncate_meets_spec (reqs : List Req) (n : Int) (its sorted kept : List IType)
+    (hnd : (its.map (·.name)).Nodup)
+    (h : allowedTruncation reqs n its sorted kept = true) :
+    cheapestKeptSpec reqs n its (kept.map (·.name)) = true := by
+  simp only [allowedTruncation, Bool.and_eq_true, beq_iff_eq] at h
+  obtain ⟨hsort, rfl⟩ := h
+  obtain ⟨hcheap, hperm, hlen⟩ := C19_cheapest_kept reqs n its sorted hsort
+  simp only [allowedSort, Bool.and_eq_true] at hsort
+  have hp : its ~ sorted := isPerm_iff.mp hsort.1
+  have hnds : (sorted.map (·.name)).Nodup := (hp.map _).nodup hnd
+  have hsub : ∀ x ∈ sliceTo n sorted, x ∈ sorted := fun x hx => mem_of_mem_take hx
+  simp only [cheapestKeptSpec, Bool.and_eq_true, all_eq_true, any_eq_true, beq_iff_eq,
+    Bool.not_eq_eq_eq_not, Bool.not_true, contains_eq_mem, decide_eq_true_eq, decide_eq_false_iff_not,
+    mem_map, mem_filter, forall_exists_index, and_imp, forall_apply_eq_imp_iff₂, length_map]
+  refine ⟨⟨⟨?_, ?_⟩, ?_⟩, ?_⟩
+  · intro x hx
+    exact ⟨x, hp.mem_iff.mpr (hsub x hx), rfl⟩
+  · rw [noDuplicates_iff]
+    have : (sliceTo n sorted).map (·.name) = (sorted.map (·.name)).take n.toNat := by simp [sliceTo, map_take]
+    rw [this]
+    exact hnds.sublist (take_sublist _ _)
+  · simpa using hlen
+  · intro k hk a ha hak d hd hdk
+    have hks : k ∈ sorted := hp.mem_iff.mp hk
+    have : a = k := eq_of_name_eq hnds (hsub a ha) hks hak
+    subst this
+    have hds : d ∈ sorted := hp.mem_iff.mp hd
+    have hdd : d ∈ sorted.drop n.toNat := by
+      have : d ∈ sliceTo n sorted ++ sorted.drop n.toNat := by
+        simpa [sliceTo, take_append_drop] using hds
+      rcases mem_append.mp this with h | h
+      · exact absurd ⟨d, h, rfl⟩ hdk
+      · exact h
+    rw [← cheaper_eq_strictlyCheaper]
+    exact hcheap a ha d hdd
+
+/-- **C19_to_nodeclaim_cheapest** — the instance-type requirement `ToNodeClaim` injects for a dynamic pool
+    names the `MaxInstanceTypes` cheapest options. -/
+theorem C19_to_nodeclaim_cheapest (reqs : List Req) (its : List IType) (names : List String)
+    (hnd : (its.map (·.name)).Nodup)
+    (h : toNodeClaimTypes false reqs maxInstanceTypes its = some names) :
+    cheapestKeptSpec reqs maxInstanceTypes its names = true := by
+  simp only [toNodeClaimTypes, Bool.false_eq_true, if_false, Option.some.injEq] at h
+  subst h
+  apply C19_truncate_meets_spec reqs _ its (orderByPrice reqs its) _ hnd
+  simp only [allowedTruncation, Bool.and_eq_true, beq_iff_eq]
+  exact ⟨C19_order_by_price_allowed reqs its, trivial⟩
+
+/-! ## Non-vacuity -/
+
+section Examples
+
+def pA : Pool := { name := [97], weight := 10 }         -- "a", weight 10
+def pB : Pool := { name := [98], weight := 10 }         -- "b", weight 10
+def pC : Pool := { name := [99], weight := 50 }         -- "c", weight 50
+def pD : Pool := { name := [100], weight := 0 }         -- "d", no weight
+
+example : orderByWeight [pA, pD, pC, pB] = [pC, pB, pA, pD] := by decide
+example : allowedSort before [pA, pD, pC, pB] [pC, pB, pA, pD] = true := by decide
+example : weightOrderSpec [pA, pD, pC, pB] [pC, pB, pA, pD] = true := by decide
+example : weightOrderSpec [pA, pD, pC, pB] [pC, pA, pB, pD] = false := by decide
+
+/-- three interleavings of two workers over [fail, ok, ok]: worker 1 publishes index 2 first in the second one,
+    worker 0 then overrides it with index 1 -/
+example : let outs := [Outcome.fail, .ok, .ok]
+    allDone (run outs (init 2 outs) [0, 1, 0, 0, 1, 0]) = true ∧
+    result (run outs (init 2 outs) [0, 1, 0, 0, 1, 0]) = some 1 := by decide
+example : let outs := [Outcome.fail, .ok, .ok]
+    (run outs (init 2 outs) [0, 0, 0, 1, 1]).idx = some 2 ∧   -- index 2 is published first …
+    result (run outs (init 2 outs) [0, 0, 0, 1, 1, 0]) = some 1 := by decide   -- … and replaced by index 1
+example : sequentialResult [Outcome.fail, .reserved, .ok] = none := by decide
+example : let outs := [Outcome.fail, .reserved, .ok]
+    allDone (run outs (init 8 outs) [2, 2, 1, 0, 0, 0, 1, 2]) = true ∧
+    result (run outs (init 8 outs) [2, 2, 1, 0, 0, 0, 1, 2]) = none := by decide
+example : chosenOk [Outcome.fail, .ok, .ok] (some 2) = false := by decide
+
+/-- the hypotheses of `C19_weight_priority` are met by a concrete run: four pools (two tie at weight 10), the
+    weight-50 pool infeasible, two workers, an interleaving in which both feasible tied pools are evaluated
+    concurrently; the theorem then yields that the pod lands in "b" (later name among the tied) and that
+    "c" (higher weight) is infeasible -/
+def fEx (p : Pool) : Outcome := if p.weight = 50 then .fail else .ok
+example : allowedSort before [pA, pD, pC, pB] [pC, pB, pA, pD] = true ∧
+    allDone (run ([pC, pB, pA, pD].map fEx) (init (effectiveWorkers 2) ([pC, pB, pA, pD].map fEx)) [0, 1, 0, 1, 0, 0]) = true ∧
+    result (run ([pC, pB, pA, pD].map fEx) (init (effectiveWorkers 2) ([pC, pB, pA, pD].map fEx)) [0, 1, 0, 1, 0, 0]) = some 1 := by
+  decide
+example := C19_weight_priority [pA, pD, pC, pB] [pC, pB, pA, pD] fEx 2 [0, 1, 0, 1, 0, 0] (by decide) (by decide)
+/-- a step of a worker that has not returned makes progress -/
+example : progressMeasure [Outcome.fail, .ok] (step [Outcome.fail, .ok] (init 2 [Outcome.fail, .ok]) 1)
+    < progressMeasure [Outcome.fail, .ok] (init 2 [Outcome.fail, .ok]) :=
+  C19_schedule_progress _ _ 1 ⟨W.idle, by decide, by decide⟩
+
+def o (z c : String) (p : Nat) (a : Bool := true) : Offering := { zone := z, ct := c, price := p, available := a }
+def tA : IType := { name := "a", offerings := [o "z1" "spot" 100, o "z2" "on-demand" 900] }
+def tB : IType := { name := "b", offerings := [o "z1" "spot" 50 false, o "z1" "on-demand" 300] }
+def tC : IType := { name := "c", offerings := [o "z3" "spot" 10] }
+def zoneIn12 : List Req := [{ key := zoneKey, op := .isIn, vals := ["z1", "z2"] }]
+
+example : (orderByPrice zoneIn12 [tC, tB, tA]).map (·.name) = ["a", "b", "c"] := by decide
+example : effPrice zoneIn12 tC = none ∧ effPrice zoneIn12 tB = some 300 := by decide
+example : toNodeClaimTypes false zoneIn12 2 [tC, tB, tA] = some ["a", "b"] := by decide
+example : cheapestKeptSpec zoneIn12 2 [tC, tB, tA] ["b", "a"] = true := by decide
+example : cheapestKeptSpec zoneIn12 2 [tC, tB, tA] ["c", "a"] = false := by decide
+example : cheapestKeptSpec zoneIn12 1 [tC, tB, tA] ["b"] = false := by decide
+
+
+def rA : RPool := { name := "a", key := [97], weight := 50, team := "", cpu := 4000, alloc := 3900, cap := 1, limit := none }
+def rB : RPool := { name := "b", key := [98], weight := 10, team := "", cpu := 4000, alloc := 3900, cap := 0, limit := none }
+def rC : RPool := { name := "c", key := [99], weight := 90, team := "", cpu := 4000, alloc := 3900, cap := 0, limit := some 4500 }
+/-- two pods, one reserved unit in the higher-weight pool: the second pod waits, it is not sent to `b` -/
+example : pass [rB, rA] [{ name := "p0", cpu := 1000, team := "" }, { name := "p1", cpu := 2000, team := "" }]
+    = [("p1", .placed "a"), ("p0", .deferred)] := by decide
+/-- the top pool's limit admits one node: the second pod legitimately falls back, and the top pool is full at the end -/
+example : pass [rB, rC] [{ name := "p0", cpu := 1000, team := "" }, { name := "p1", cpu := 2000, team := "" }]
+    = [("p1", .placed "c"), ("p0", .placed "b")] ∧ finalUsed [rB, rC] [{ name := "p0", cpu := 1000, team := "" }, { name := "p1", cpu := 2000, team := "" }] = [1, 1] := by decide
+
+end Examples
+
+/-! ## Recorded finding (kept as a machine-checked record; replayed on the real code by corpus/c19.pass)
+
+Full-strength statement of the first sentence for whole passes: "every pod that is given a new node gets it in
+a NodePool able to host it, and no higher-weight ready NodePool can host it".  The ordering half is proved above
+(`C19_weight_priority`) over an arbitrary feasibility function; feasibility itself (C01) is an input there.  On the
+real code the "able to host it" half fails for a pod whose own requirements contradict each other on a label the
+NodePool does not define: the specification says no pool can host it, the real provisioner opens a NodeClaim. -/
+
+def witnessPool : Spec.PoolPass.PPool :=
+  { name := "np-1", weight := 0, ready := true, static := false, deleting := false, reqs := [], labels := [],
+    taints := [], types := [{ name := "t00", cpu := 1000, pods := 1, overhead := 0,
+                              offerings := [o "z1" "on-demand" 1024] }] }
+def witnessPod : Spec.PoolPass.PPod :=
+  { name := "pod-04", cpu := 500, tol := [],
+    reqs := [{ key := "example.com/team", op := .isIn, vals := ["a"] },
+             { key := "example.com/team", op := .doesNotExist, vals := [] }] }
+
+/-- no node of the witness pool satisfies the witness pod (the real code opens one: known finding
+    C19-unsatisfiable-pod-gets-node) … -/
+theorem C19_witness_unsatisfiable_pod : Spec.PoolPass.hosts witnessPool [witnessPod] = false := by decide
+/-- … while each half of the contradiction alone is handled as the specification says -/
+theorem C19_witness_control :
+    Spec.PoolPass.hosts witnessPool [{ witnessPod with reqs := witnessPod.reqs.drop 1 }] = true ∧
+    Spec.PoolPass.hosts witnessPool [{ witnessPod with reqs := witnessPod.reqs.take 1 }] = false := by decide
+
 end Karp.C19
